@@ -42,6 +42,18 @@ CHECKS = {
          "runtime monitor of the real compile entry point (stand-alone binary: panic = rejection) and of `go build` of the generated package, over the supported-subset program streams x import styles",
          "Exploration: every supported-subset program of the streams in 5 import styles; a compiler panic or an unbuildable generated package is attributed to a single program by re-running it alone.",
          E1NOTE),
+ "C14": ("E5 schedules + race detector",
+         "runtime monitor of per-iterator records under enumerated interleavings (solo record as oracle) and goroutine-parallel consumption under the Go race detector (GORACE log files, DATA RACE blocks counted and de-duplicated)",
+         "Exploration: 10 closed generators; all pairs x all 70 interleavings of 4 advances, PRNG triples x all interleavings of 3 (4) advances, PRNG 4-iterator schedules; 16 (64) goroutines x 40 (200) rounds x 3 (20) race-detector runs with PRNG Gosched; every iterator's record must equal its solo record, zero race reports, no panic; the evidence counts distinct schedules and distinct goroutine interleavings actually observed.",
+         ASSUME + "The race detector only speaks about interleavings that happened."),
+ "C15": ("E6 determinism",
+         "runtime monitor of output bytes across fresh compiler processes and perturbed configurations (byte comparison, sha256), helper-identifier uniqueness by parsing the outputs",
+         "Exploration: generated + repository source files compiled alone (repeated, GOMAXPROCS 1/4/16), among extra files, among other packages, as second Compile of a process, into pre-populated dst/dst_tmp, under a different root path; every generated file byte-identical to the first configuration.",
+         ASSUME + "Process-level nondeterminism (map seeds, scheduling) is sampled by repeated fresh processes."),
+ "C16": ("E7 gogen-fs",
+         "runtime monitor of the real cmd/cogen under `go generate`: directory snapshots (path, mode, sha256) of module root and parent before/after, strace file-syscall log (thorough), go build / go test / go vet -tags co, second-run snapshot",
+         "Exploration: 6 (thorough 40) module layouts; the snapshot difference must be exactly the expected derived files with the prescribed header; nothing else created, modified, deleted or left behind; package builds/tests/vets afterwards; second run byte-identical.",
+         ASSUME + "Layouts are small synthetic packages; the go tool sets GOFILE etc. exactly as for a user."),
  "C17": ("E4 stack-depth",
          "runtime monitor: runtime.Callers depth sampled inside loop bodies/conditions of compiled generators and raw seq loops at iteration indices 2..n, one child process per configuration; bounded-growth oracle",
          "Exploration: 15 loop configurations (all loop forms produced by the real compiler + raw seq.For/While/Loop/Combine terms) with a body that yields only on the last of 10^5 (thorough 10^6) iterations; depth(i) - depth(10) <= 16 frames; delegation chains d=1..24 (64): constant increment per level. 'For all n' is restated as bounded growth up to the stated n.",
